@@ -102,7 +102,8 @@ def run(ctx):
     for b in lib.fn_bodies():
         for bb, t in b.calls():
             if t["callee"] == INTERP and b.deff != INTERP and b.j.get("closure_root") != INTERP:
-                callers.add(b.deff)
+                # a closure of a function is that function evaluating (e.g. `.map(|x| interpret(x, ..))` inside map's evaluate)
+                callers.add(b.j.get("closure_root") if b.kind == "closure" and b.j.get("closure_root") else b.deff)
     allowed = {"Expression::<'a>::search"} | {f"<functions::{x} as functions::Function>::evaluate" for x in ("MapFn", "SortByFn", "MaxByFn", "MinByFn")}
     ctx.check(callers == allowed, "context-flow", "who-may-evaluate", f"interpret is called only from search and the four expression-reference builtins (found extra {sorted(callers - allowed)}, missing {sorted(allowed - callers)})")
     # parser side
